@@ -707,3 +707,90 @@ def payload_take(m, rep, rule):
                   "the payload stage takes %s bytes = min(missing bytes of the message, chunk size)" % amount[:120],
                   "the payload stage takes %s bytes on the path [%s], which %s" % (amount[:160], conds, "; ".join(what)), pay.span)
     rep.floor(rule, "distinct payload takes on Success paths of the payload stage", n, 1)
+
+
+def suspend_gates(m, rep, rule):
+    """A stage of the reader may answer "not enough bytes" only while the input buffer holds fewer bytes than the stage consumes
+    when it succeeds.  A wider gate (waiting for bytes of the *next* field or chunk) holds a complete message back until more input
+    arrives - a zero-length message at the end of the input is never delivered.  Decided per suspend path of every stage function in
+    the state of that path: buffer.len < A for an amount A that a succeeding path of the same stage takes out of the buffer
+    (symbolically, or by hi(buffer.len) + 1 <= lo(A)); a suspension decided by a callee that reports "not enough bytes" itself is
+    attributed to that callee (its own gates are C06 R2 / C03)."""
+    prog, env = m.prog, m.env
+    DES = "chunk_io::deserializer::ChunkDeserializer"
+    bi_ = _field_index(prog, DES, "buffer")
+    if bi_ is None:
+        rep.anchor_missing(rule, "field buffer of the deserializer")
+        return
+    TAKERS = ("bytes::bytes_mut::BytesMut::split_to", "bytes::buf::buf_impl::Buf::advance")
+    units = grammar.named_units(prog)
+    n_fn = n_paths = 0
+    for s_, ck in sorted(m.stage_fn.items()):
+        b = prog.bodies[ck]
+        amounts = {}
+
+        def cprobe(ex, it, S, t, args):
+            if callee_name(t) not in TAKERS or not args:
+                return None
+            tgt = it.target(args[0])
+            if not tgt or not tgt[1] or tgt[1][-1][0] != "f" or tgt[1][-1][2] != "buffer":
+                return None
+            d = S.dom(args[1])
+            return ("amount", args[1], d.lo)
+
+        def mk(probe):
+            ex = grammar.Extractor(env, ck, "r")
+            ex.all_local_calls = True
+            ex.track_takes = True
+            ex.track_ext = True
+            ex.inline = True
+            ex.inline_pred = lambda cb, t: cb.pretty.split("::")[-1] not in units
+            ex.call_probe = cprobe
+            ex.probe = probe
+            return ex.run()
+        ex1 = mk(None)
+        if ex1.truncated:
+            rep.cannot_analyse(rule, b.pretty, "too many paths in %s" % b.pretty, b.span)
+            continue
+        for p in ex1.paths:
+            rets = [t for t in p if t[0] == "returns"]
+            if not rets or "Success" not in rets[-1][1]:
+                continue
+            # what the path consumes in total: its takes (one per stage today)
+            for t in p:
+                if t[0] == "cprobe" and t[1][0] == "amount":
+                    amounts[t[1][1]] = min(amounts.get(t[1][1], 1 << 62), t[1][2])
+        n_fn += 1
+
+        def probe(it, S):
+            selfv = State().read((it.L(1), ()))
+            ln = State().read((("P", selfv), (("f", bi_, "buffer"), ("len",))))
+            set_ty(ln, "usize")
+            hi = S.dom(ln).hi
+            ok = any(S.prove_le(ln, a, -1) or hi + 1 <= lo for a, lo in amounts.items())
+            return ("gate", ok, hi)
+        ex2 = mk(probe)
+        seen = set()
+        for p in ex2.paths:
+            rets = [t for t in p if t[0] == "returns"]
+            if not rets or "NotEnoughBytes" not in rets[-1][1] or not p or p[-1] != ("end", "ok"):
+                continue
+            pr = [t for t in p if t[0] == "probe"]
+            ok, hi = (pr[-1][1][1], pr[-1][1][2]) if pr else (False, None)
+            # the decision that sent the path to the suspending return is its last one: a callee's result variant (the callee
+            # reported the shortage) or a comparison of this stage's own
+            whens = [t for t in p if t[0] == "when"]
+            delegated = bool(whens) and re.match(r"^discr\((?:load\()?call\((?!ReadBytesExt)[^()]+\)\)?\)$", whens[-1][1]) is not None and "buffer.len" not in whens[-1][1]
+            conds = " ".join(grammar.fmt_tok(t) for t in p if t[0] == "when")[:300]
+            if (ok, delegated, conds) in seen:
+                continue
+            seen.add((ok, delegated, conds))
+            n_paths += 1
+            fname = b.pretty.split("::")[-1]
+            rep.check(rule, "%s|suspends-only-for-its-own-bytes|%s" % (fname, "own-gate" if ok else "delegated" if delegated else "wider"), ok or delegated,
+                      "%s suspends only while the buffer holds fewer bytes than it consumes (%s)" % (fname, "proved against the amount taken" if ok else "decided by a callee that reports the shortage"),
+                      "%s answers 'not enough bytes' on the path [%s] although the buffer may already hold everything the stage consumes (amounts taken on success: %s; buffer length on this path up to %s): "
+                      "a complete chunk - e.g. a zero-length message at the end of the input - is held back until bytes of the next chunk arrive" % (
+                          fname, conds, sorted(stable(a)[:60] for a in amounts) or "none", hi), b.span)
+    rep.floor(rule, "stage functions whose suspend paths were examined", n_fn, 5)
+    rep.floor(rule + ".paths", "suspend paths examined", n_paths, 5)
